@@ -21,6 +21,36 @@ UNDEF = ["nope", "zz9", "v100", "va", "5", "1v", "_"]
 MSG = "Session variable '${}' does not exist"
 
 
+class Ex(str):
+    """the value of a variable that was SET to a Snowflake expression: the expression text, with the canonical cell it evaluates to"""
+    cell: tuple = ()
+
+
+def cv(v):
+    return v.cell if isinstance(v, Ex) else canon(v)
+
+
+# Snowflake-specific expressions (rewritten for DuckDB by fakesnow's transforms, several of them NOT idempotently) and what they evaluate to
+EXPRS = [("REGEXP_REPLACE('abc123', '[0-9]+', 'X')", ("str", "abcX")), ("REGEXP_SUBSTR('abc123def', '[0-9]+')", ("str", "123")),
+         ("parse_json('{\"a\":{\"b\":7}}'):a.b", ("str", "7")), ("parse_json('{\"k\":[1,{\"z\":2}]}'):k[1].z", ("str", "2")),
+         ("TO_DECIMAL('12.50', 10, 2)", ("flt", 12.5)), ("DATEADD('DAY', 3, '2024-01-01')", ("str", "2024-01-04 00:00:00")),
+         ("[1, 2, 3]", ("other", "list", "[1, 2, 3]")), ("UPPER('x') || 'y'", ("str", "Xy")), ("IFF(1=1,'a','b')", ("str", "a")), ("NVL(NULL,'z')", ("str", "z")),
+         ("ARRAY_SIZE(parse_json('[1,2]'))", ("int", 2)), ("TO_VARCHAR(12)", ("str", "12")), ("'2020-01-02'::date", ("str", "2020-01-02")),
+         ("DATEDIFF('day', '2024-01-01', '2024-01-05')", ("int", 4)), ("OBJECT_CONSTRUCT('a', 1)", ("str", '{"a":1}')),
+         ("to_date('2020-01-02') + 1", ("str", "2020-01-03")), ("regexp_like('abc', 'a.c')", ("bool", True)), ("split('a,b', ',')[1]", ("str", '"b"'))]
+
+
+def stored_text(expr: str) -> str:
+    """what the (repaired) SET stores for a value expression: sqlglot's Snowflake rendering, compound expressions parenthesised
+    (sqlglot is trusted base here; the model keeps the text as given)"""
+    import sqlglot
+    from sqlglot import exp
+    e = sqlglot.parse_one(f"select {expr}", read="snowflake").expressions[0]
+    if isinstance(e, (exp.Binary, exp.Unary, exp.Predicate)) and not isinstance(e, exp.Paren):
+        e = exp.paren(e)
+    return e.sql(dialect="snowflake")
+
+
 NOP15 = ["^call ", r"^select 'skip"]      # nop_regexes of the histories flagged `nop`
 
 
@@ -98,7 +128,13 @@ def gen_history(rnd: random.Random, hid: int, nop: bool = False) -> dict:
             elif k < 0.78:
                 n = rnd.randint(1, 99)
                 written, kind, val = f"-{n}", "P:" + enc_str(f"-{n}"), -n
-            elif k < 0.9:
+            elif k < 0.84:
+                # a Snowflake-specific expression: `$name` must stand for what the expression evaluates to
+                ex, cell = rnd.choice(EXPRS)
+                val = Ex(ex)
+                val.cell = cell
+                written, kind = ex, "N:" + enc_str(stored_text(ex))
+            elif k < 0.92:
                 a, b, o = rnd.randint(1, 9), rnd.randint(1, 9), rnd.choice(["+", "-", "*"])
                 written, kind, val = f"{a} {o} {b}", "P:" + enc_str(f"{a} {o} {b}"), eval(f"{a}{o}{b}")  # noqa: S307
             elif defined:
@@ -136,7 +172,7 @@ def gen_history(rnd: random.Random, hid: int, nop: bool = False) -> dict:
                 extra = rnd.choice(others) if others and rnd.random() < 0.5 else None
                 items = [ref] + (["$" + spell(extra.lower(), rnd)] if extra else [])
                 if name in spec[i]:
-                    subs.append({"op": "q", "conn": i, "cur": cur, "sql": "select " + ", ".join(items), "expect": [[canon(spec[i][n]) for n in [name] + ([extra] if extra else [])]],
+                    subs.append({"op": "q", "conn": i, "cur": cur, "sql": "select " + ", ".join(items), "expect": [[cv(spec[i][n]) for n in [name] + ([extra] if extra else [])]],
                                  "err": None, "lit": False, "undef_item": None, "recipe": None})
                 else:
                     subs.append({"op": "q", "conn": i, "cur": cur, "sql": "select " + ", ".join(items), "expect": None, "err": name, "lit": False, "undef_item": ref, "recipe": None})
@@ -183,11 +219,11 @@ def gen_history(rnd: random.Random, hid: int, nop: bool = False) -> dict:
                     models.append(",".join(["s", str(i), enc_str(name), "X:" + enc_str(f"{ref} {o} {k}"), enc_str(sql)]))
                     spec[i][name] = spec[i][name] + k if o == "+" else spec[i][name] * k
                 ops.append({"op": "m", "conn": i, "cur": cur, "sql": sql, "rows": [[k] for k in rows], "models": models, "want": "status"})
-                ops.append({"op": "q", "conn": i, "cur": cur, "sql": f"select ${name.lower()}", "expect": [[canon(spec[i][name])]], "err": None, "lit": False,
+                ops.append({"op": "q", "conn": i, "cur": cur, "sql": f"select ${name.lower()}", "expect": [[cv(spec[i][name])]], "err": None, "lit": False,
                             "undef_item": None, "recipe": [("ref", name, None, f"${name.lower()}")]})
             else:
                 # executemany of an INSERT that references a variable, with bound values containing `$name`
-                cand = [n for n, v in spec[i].items() if (isinstance(v, int) and not isinstance(v, bool)) or (isinstance(v, str) and "%" not in v and "\x00" not in v)]
+                cand = [n for n, v in spec[i].items() if (isinstance(v, int) and not isinstance(v, bool)) or (isinstance(v, str) and not isinstance(v, Ex) and "%" not in v and "\x00" not in v)]
                 if cand:
                     var = rnd.choice(cand)
                     wexpr, wval = "$" + spell(var.lower(), rnd), (spec[i][var] if isinstance(spec[i][var], str) else str(spec[i][var]))
@@ -205,7 +241,12 @@ def gen_history(rnd: random.Random, hid: int, nop: bool = False) -> dict:
                             "expect": [[("int", k), ("str", v), ("str", wval)] for k, v in zip(ids, vals)], "err": None, "lit": False, "undef_item": None, "recipe": []})
         else:
             ops.append(gen_query(rnd, i, cur, spec[i], pool, all_names=[n for e in spec for n in e]))
-            if rnd.random() < 0.5:
+            if ops[-1]["op"] == "q" and not ops[-1]["lit"] and not nop and rnd.random() < 0.25:
+                # cursor.describe is a use-site of variables too: same columns as executing, or the undefined-variable error
+                d = dict(ops[-1])
+                d["op"] = "d"
+                ops.append(d)
+            if ops[-1]["op"] != "d" and rnd.random() < 0.5:
                 # the same text, byte for byte, on the other connection right away (no SET/UNSET in between): each connection
                 # must see its own variables — or the undefined-variable error
                 j = (i + 1) % nconn
@@ -247,7 +288,7 @@ def gen_query(rnd, i, cur, env: dict, pool, all_names=()) -> dict:
             ref = "$" + spell(n.lower(), rnd)
             if isinstance(v, str) or rnd.random() < 0.4:
                 items.append(rnd.choice([ref, f"({ref})", f" {ref} "]))
-                expect.append(canon(v))
+                expect.append(cv(v))
                 recipe.append(("ref", n, None, items[-1]))
             else:
                 form = rnd.choice(["{} * 2", "3-{}", "10 - {} - 1", "{}+1"])
@@ -317,7 +358,7 @@ def mirror(op: dict, j: int, cur: int, env: dict) -> dict | None:
             continue
         v = env[name]
         if form is None:
-            expect.append(canon(v))
+            expect.append(cv(v))
         elif isinstance(v, str):
             return None          # arithmetic on a string-valued variable: not a case of this property
         else:
@@ -341,6 +382,8 @@ def _lines(hists):
                 ops.append(",".join(["u", str(o["conn"]), enc_str(o["name"])]))
             elif o["op"] == "b":
                 ops.append(",".join(["b", str(o["conn"]), enc_str(o["sql"]), "+".join(o["wires"])]))
+            elif o["op"] == "d":
+                ops.append(",".join(["q", str(o["conn"]), enc_str("DESCRIBE " + o["sql"])]))
             else:
                 ops.append(",".join(["q", str(o["conn"]), enc_str(o["sql"])]))
         lines.append(f"vars\thist\t{h['nconn']}\t" + enc_list(ops))
@@ -448,6 +491,18 @@ def _worker(hists):
                             cur.executemany(o["sql"], [tuple(r) for r in o["rows"]])
                             return ("rows", [[canon(c) for c in r] for r in cur.fetchall()])
                         res.append({"real": _outcome(many)})
+                    elif o["op"] == "d":
+                        def desc(c_, sql):
+                            # type codes only: the NAME of an un-aliased column is the engine's rendering of the expression text
+                            return ("cols", [m.type_code for m in c_.describe(sql)])
+
+                        def ref(c_=cur, sql=o["sql"]):
+                            c_.execute(sql)
+                            return ("cols", [m.type_code for m in c_.description])
+                        r = {"real": _outcome(lambda: desc(cur, o["sql"])), "ref": _outcome(ref)}
+                        if o["model"][0] == "ok" and not re.search(r"(?<!\$)\$\w", o["model"][1]):
+                            r["twin"] = _outcome(lambda: desc(twin.cursor(), o["model"][1][len("DESCRIBE "):]))
+                        res.append(r)
                     elif o["op"] in ("s", "u"):
                         r = _outcome(lambda: _select(cur, o["sql"], tuple(o["params"]) if o.get("params") else None))
                         res.append({"real": r})
@@ -498,6 +553,22 @@ def _judge(chk, h, res):
                 continue
             chk.violation(f"history #{h['id']} op {idx}: executemany(`{o['sql']}`, {o['rows']}) on connection {o['conn']} returned {_short(real)} (expected {want}); "
                           f"model per row: {[ob.split('|')[0][:40] for ob in o['m_obs']]}", case, broken="C15_exact/C15_set (executemany = one execute per row)")
+            return
+        if o["op"] == "d":
+            chk.count("q:describe")
+            if o["err"]:
+                want = ("err", "ProgrammingError", MSG.format(o["err"]))
+                held = real[0] == "err" and (real[1], real[4]) == want[1:]
+            else:
+                want = r["ref"]
+                held = real == want        # the same columns — or the same error, e.g. for a column type `description` cannot map
+            pred_ok = (r["twin"] == real) if "twin" in r else (o["model"][0] == "ok" or (real[0] == "err" and real[4] == MSG.format(o["model"][1])))
+            if held and pred_ok:
+                chk.count("held")
+                continue
+            chk.violation(f"history #{h['id']} (connection {o['conn']}) after {[x['sql'] for x in h['ops'][:idx]]}: cursor.describe(`{o['sql']}`) gave {_short(real)} but "
+                          f"executing the statement gives the columns / error {_short(want)} (model: {o['model'][0]}, twin {_short(r.get('twin'))})", case,
+                          broken="C15_exact/C15_undefined (describe is a use-site of variables)", failing_input=held is False)
             return
         if o["op"] in ("s", "u"):
             want = OKROW if o["model"][0] == "d" else None
